@@ -3,7 +3,7 @@ pub mod model;
 pub mod ops;
 pub mod tap;
 
-pub use model::{Model, MV};
+pub use model::{Model, RecList, RecTree, MV};
 pub use ops::*;
 pub use tap::*;
 
